@@ -1,4 +1,5 @@
 import NodisVerif.Model.Proto
+import NodisVerif.Model.Block
 /-
   `pev <event>`: one step of the locking protocol as reported by the implementation's trace hook.
   Keys travel as "k" ++ lowercase hex (order-preserving), transactions and records as numbers.
@@ -42,4 +43,26 @@ def protoOp (s : PState) (toks : List String) : PState × String :=
 def protoEnd (s : PState) : String :=
   s!"active={s.txs.length} index={s.index.length} pending={s.pending.length}"
 
+end NodisVerif.Driver
+
+namespace NodisVerif.Driver
+open NodisVerif.Block in
+def parseBev : List String → Option Block.Ev
+  | ["reg", w, k] => w.toNat?.map fun w => .reg w k
+  | ["try", w, k, g] => w.toNat?.map fun w => .try_ w k (g == "1")
+  | ["block", w, t] => w.toNat?.map fun w => .block w (t == "1")
+  | ["wake", w] => w.toNat?.map .wake
+  | ["timeout", w] => w.toNat?.map .timeout
+  | ["notify", w, k] => w.toNat?.map fun w => .notify w k
+  | ["unreg", w, k] => w.toNat?.map fun w => .unreg w k
+  | ["fin", w] => w.toNat?.map .fin
+  | _ => none
+
+def blockOp (s : Block.BState) (toks : List String) : Block.BState × String :=
+  match parseBev toks with
+  | none => (s, "bad-op")
+  | some e =>
+    match Block.stepLoose s e with
+    | some s' => (s', "ok")
+    | none => (s, "rejected")
 end NodisVerif.Driver
